@@ -61,15 +61,21 @@ def canon(key) -> str:
 SLOT = {"subject": "s", "predicate": "p", "object": "o", "graph": "g"}
 
 
-def make_decoder(opt_row: dict):
+def make_decoder(opt_row: dict, integ: str = "generic"):
     from pyjelly import jelly  # noqa: PLC0415
-    from pyjelly.integrations.generic import parse as gp  # noqa: PLC0415
     from pyjelly.parse.decode import Decoder, options_from_frame  # noqa: PLC0415
 
     frame = jelly.RdfStreamFrame.FromString(wire.enc_frame({"rows": [opt_row]}))
     options = options_from_frame(frame, delimited=True)
     pt = opt_row["pt"]
-    adapter = (gp.GenericTriplesAdapter(options) if pt == 1 else gp.GenericQuadsAdapter(options) if pt == 2 else gp.GenericGraphsAdapter(options))
+    if integ == "rdflib":
+        from pyjelly.integrations.rdflib import parse as rp  # noqa: PLC0415
+
+        adapter = (rp.RDFLibTriplesAdapter(options) if pt == 1 else rp.RDFLibQuadsAdapter(options) if pt == 2 else rp.RDFLibGraphsAdapter(options))
+    else:
+        from pyjelly.integrations.generic import parse as gp  # noqa: PLC0415
+
+        adapter = (gp.GenericTriplesAdapter(options) if pt == 1 else gp.GenericQuadsAdapter(options) if pt == 2 else gp.GenericGraphsAdapter(options))
     return Decoder(adapter=adapter)
 
 
@@ -83,22 +89,25 @@ def apply_row(dec, row: dict):
     return dec.decode_row(msg)
 
 
-def project(dec, ids) -> dict:
+def project(dec, ids, integ: str = "generic") -> dict:
     def tab(t, n):
         return [([t.data[i]] if i < len(t.data) and t.data[i] is not None else []) for i in range(n)]
 
+    def conv(v, graph_position=False):
+        return terms.from_generic(v) if integ == "generic" else terms.from_rdflib(v, graph_position=graph_position)
+
     prev = {}
     for k, v in dec.repeated_terms.items():
-        prev[SLOT[k]] = terms.jterm(terms.norm_term(terms.from_generic(v)))
+        prev[SLOT[k]] = terms.jterm(terms.norm_term(conv(v, SLOT[k] == "g")))
     gid = getattr(dec.adapter, "_graph_id", None)
     return {"names": tab(dec.names, ids[0]), "pfx": tab(dec.prefixes, ids[1]), "dts": tab(dec.datatypes, ids[2]),
             "lna": dec.names.last_assigned_index, "lpa": dec.prefixes.last_assigned_index, "lda": dec.datatypes.last_assigned_index,
             "lnu": dec.names.last_reused_index, "lpu": dec.prefixes.last_reused_index,
             "prev": prev, "gopen": gid is not None,
-            "g": [terms.jterm(terms.norm_term(terms.from_generic(gid)))] if gid is not None else []}
+            "g": [terms.jterm(terms.norm_term(conv(gid, True)))] if gid is not None else []}
 
 
-def walk(name: str, edges, faults_at, *, on_violation, on_drift, max_edges=10**9):
+def walk(name: str, edges, faults_at, *, on_violation, on_drift, max_edges=10**9, integ="generic"):
     """BFS over the model graph with a real Decoder. Returns counters."""
     u = UNIVERSES[name]
     nid = {"Ids2": 2, "Ids1": 1, "NoIds": 0}
@@ -115,7 +124,8 @@ def walk(name: str, edges, faults_at, *, on_violation, on_drift, max_edges=10**9
     if start is None:
         env.machinery_failure(f"reader graph {name}: no initial state found")
     opt_row = next(json.loads(r) for r in edges[start] if json.loads(r)["r"] == "opt")
-    dec0 = make_decoder(opt_row)
+    dec0 = make_decoder(opt_row, integ)
+    item_of = terms.item_from_generic if integ == "generic" else terms.item_from_rdflib
     seen = {start}
     queue = [(start, dec0)]
     n_edges = n_faults = 0
@@ -130,16 +140,16 @@ def walk(name: str, edges, faults_at, *, on_violation, on_drift, max_edges=10**9
                     got = apply_row(d2, row)
                 except Exception as ex:  # noqa: BLE001
                     on_violation("valid-row-rejected", f"reader state reached by a valid stream, valid next row {row}: {type(ex).__name__}: {ex}",
-                                 {"universe": name, "state": json.loads(key), "row": row})
+                                 {"universe": name, "integ": integ, "state": json.loads(key), "row": row})
                     continue
                 if item:
                     want = _norm(item[0])
-                    have = terms.jitem(terms.norm_item(terms.item_from_generic(got))) if got is not None else None
+                    have = terms.jitem(terms.norm_item(item_of(got))) if got is not None else None
                     if have != want:
                         on_violation("denotation-differs", f"row {row}: denotes {want}, decoder returned {have}",
-                                     {"universe": name, "state": json.loads(key), "row": row})
+                                     {"universe": name, "integ": integ, "state": json.loads(key), "row": row})
                         continue
-                real_key = canon(project(d2, ids))
+                real_key = canon(project(d2, ids, integ))
                 if real_key != to_key:
                     on_drift(f"{name}: after row {row} the real Decoder's projected state differs from JellyReader's")
                 if to_key not in seen:
@@ -154,6 +164,6 @@ def walk(name: str, edges, faults_at, *, on_violation, on_drift, max_edges=10**9
                 except Exception:  # noqa: BLE001
                     continue
                 on_violation("invalid-row-accepted", f"{cls} ({clause}): row {row} accepted in a reachable reader state; delivered {got!r}",
-                             {"universe": name, "state": json.loads(key), "row": row, "class": cls})
+                             {"universe": name, "integ": integ, "state": json.loads(key), "row": row, "class": cls})
         queue = nxt
     return {"states_walked": len(seen), "model_states_with_edges": len(edges), "edges_replayed": n_edges, "fault_rows_replayed": n_faults}
